@@ -137,9 +137,15 @@ func (w *World) execGateOp(ctx context.Context, toks []string) (bool, error) {
 		heads := cloneEntries(w.entriesByNames(a["heads"]))
 		sctx := w.ctx
 		if name, ok := a["ctx"]; ok {
-			c, cancel := context.WithCancel(w.ctx)
+			w.reqSeq++
+			rname := name
+			if name == "cancelled" {
+				rname = fmt.Sprintf("x%d", w.reqSeq)
+			}
+			c, cancel := context.WithCancel(context.WithValue(w.ctx, reqKey{}, rname))
 			if name == "cancelled" {
 				cancel()
+				w.recordCancel(rname)
 			} else {
 				if w.cancels == nil {
 					w.cancels = map[string]context.CancelFunc{}
@@ -152,7 +158,13 @@ func (w *World) execGateOp(ctx context.Context, toks []string) (bool, error) {
 		w.printf("syncing %d %s\n", p, errStr(err))
 	case "cancel":
 		if c, ok := w.cancels[toks[1]]; ok {
+			// recorded in the same sequence as the replicators' steps, under the lock their hooks take
+			w.mu.Lock()
 			c()
+			for _, a := range w.acct {
+				a.rev = append(a.rev, revent{kind: "cancel", ctx: toks[1]})
+			}
+			w.mu.Unlock()
 		}
 		// give the cancelled workers a moment to unwind
 		time.Sleep(2 * time.Millisecond)
